@@ -1522,3 +1522,56 @@ M('C02','silent-readbool-guard-lt-one','serializer/serializer.go','''	if len(d.s
 	switch d.src[d.offset : d.offset+1][0] {''','',silent=True)
 M('C02','silent-readstring-remaining-var','serializer/serializer.go','''	if len(d.src[d.offset:]) < skip {''','''	remaining := len(d.src[d.offset:])
 	if remaining < skip {''','',silent=True)
+
+# ---------------- regressions found through seeded changes (sub-agents)
+M('C10','silent-insert-remove-neighbours-in-locals','ds/list_impl.go','',None,'',silent=True,edits=[
+ ('ds/list_impl.go','''	e.prev.Store(at)
+	e.next.Store(at.next.Load())
+	e.prev.Load().next.Store(e)
+	e.next.Load().prev.Store(e)
+	e.list.Store(l)''','''	next := at.next.Load()
+
+	e.prev.Store(at)
+	e.next.Store(next)
+	at.next.Store(e)
+	next.prev.Store(e)
+	e.list.Store(l)'''),
+ ('ds/list_impl.go','''	e.prev.Load().next.Store(e.next.Load())
+	e.next.Load().prev.Store(e.prev.Load())
+	e.next.Store(nil) // avoid memory leaks''','''	prev, next := e.prev.Load(), e.next.Load()
+
+	prev.next.Store(next)
+	next.prev.Store(prev)
+	e.next.Store(nil) // avoid memory leaks''')])
+M('C10','move-hoists-at-next','ds/list_impl.go','''	e.prev.Load().next.Store(e.next.Load())
+	e.next.Load().prev.Store(e.prev.Load())
+
+	e.prev.Store(at)
+	e.next.Store(at.next.Load())
+	e.prev.Load().next.Store(e)
+	e.next.Load().prev.Store(e)
+}''','''	prev, next, atNext := e.prev.Load(), e.next.Load(), at.next.Load()
+
+	prev.next.Store(next)
+	next.prev.Store(prev)
+
+	e.prev.Store(at)
+	e.next.Store(atNext)
+	at.next.Store(e)
+	atNext.prev.Store(e)
+}''','splice/agrees-with-container-list ds.list.move')
+M('C10','silent-move-locals-after-unlink','ds/list_impl.go','''	e.prev.Store(at)
+	e.next.Store(at.next.Load())
+	e.prev.Load().next.Store(e)
+	e.next.Load().prev.Store(e)
+}''','''	atNext := at.next.Load()
+	e.prev.Store(at)
+	e.next.Store(atNext)
+	at.next.Store(e)
+	atNext.prev.Store(e)
+}''','',silent=True)
+M('C05','iterate-lazy-values','kvstore/mapdb/synced_map.go','''		if !consume([]byte(key)[len(realm):], copiedElements[key]) {''','''		value, exists := s.get([]byte(key))
+		if !exists {
+			continue
+		}
+		if !consume([]byte(key)[len(realm):], value) {''','atomic/one-section-per-operation kvstore/mapdb.syncedKVMap.iterate')
